@@ -96,7 +96,7 @@ def run(ctx):
         hp = os.path.join(d, '%s_race.c' % p.name)
         open(hp, 'w').write(O.race_harness(p, 'OpenMP', tr))
         expect_race = p.only_modes == ['_expect_race']
-        q = C.Query('%s/race' % p.name, None, hp, unwind=p.unwind or 10, timeout=900 if thorough else 240, desc=p.feats, backend='cadical',
+        q = C.Query('%s/race' % p.name, None, hp, unwind=p.unwind or 10, timeout=1200 if thorough else 600, desc=p.feats, backend='cadical',
                     expect='fail' if expect_race else 'pass')
         q.cfiles = [hp]; q.meta = {'program': p.name, 'mode': 'OpenMP', 'prog': O.prog_to_meta(p), 'race': True}
         q.known = 'self-test: the race detector flags a kernel whose outer iterations interfere (twopar)'
